@@ -1197,6 +1197,8 @@ class MemoryCache:
             if entry is None:
                 result.append(None)
             else:
+                # A look-up that is served from the cache is a use of the entry
+                self._mark_used(cache_key)
                 memento = entry.memento
                 result.append(memento)
         return result
